@@ -1160,3 +1160,26 @@ Proof.
   intros s. destruct (inv12_exec W rt limit sched (c_init ups)) as [_ [J1 _ _ _]]; [split; [apply inv1_init|apply inv2_init]|].
   apply J1.
 Qed.
+
+(* ---------- sanity (non-vacuity) of the group-map machine: a destroyed group is replaced through the
+   CompareAndSwap path while maintenance races with it; CompareAndDelete of the old group then fails ---------- *)
+Definition ex_r1 := mkUpd 1 1 1 4 0.           (* resolved at instant 5 *)
+Definition ex_f2 := mkUpd 2 2 3 1000 1.       (* firing, same group key *)
+Definition ex_sched : list tid :=
+  [TW 0; TW 0; TW 0; TW 0; TW 0; TW 0; TW 0;            (* worker 0: r1 creates group 0 via LoadOrStore, runs it *)
+   TW 1; TW 1;                                          (* worker 1: receives f2, Loads group 0 *)
+   TF 0 5 true; TF 0 5 true;                            (* flush of group 0: r1 notified, deleted, group destroyed *)
+   TW 1; TW 1; TW 1;                                    (* insert fails, limit ok, new group 1, about to CAS *)
+   TM (0, 0); TM (0, 0);                                (* maintenance finds group 0 destroyed *)
+   TW 1;                                                (* CAS(0 -> 1) succeeds *)
+   TM (0, 0); TM (0, 0);                                (* stop(); CompareAndDelete(0) fails: the map holds 1 *)
+   TW 1; TW 1].                                         (* cancel old, run new *)
+Example ex_cas_replaces_destroyed_group :
+  let s := c_exec 2 (fun _ => [(0, 0)]) 0 ex_sched (c_init [ex_r1; ex_f2]) in
+  c_map s !! (0, 0) = Some 1%nat /\ c_num s = 1 /\ c_maint s = MIdle /\
+  (g_destroyed <$> c_heap s !! 0%nat) = Some true /\ (live <$> c_heap s !! 1%nat) = Some true /\
+  (g_fpc <$> c_heap s !! 1%nat) = Some FWait /\
+  ((fun G => g_alerts G !! 2) <$> c_heap s !! 1%nat) = Some (Some ex_f2) /\
+  c_log s = [ODone ex_f2 (0, 0) 1%nat; ODone ex_r1 (0, 0) 0%nat] /\
+  map_to_list (c_workers s) = [(0%nat, WIdle); (1%nat, WIdle)].
+Proof. vm_compute. repeat split; reflexivity. Qed.
